@@ -311,8 +311,8 @@ def run(chk):
     tof = loader.load('conversion.tof')
     utils = loader.load('_utils')
     gt = loader.load('conversion.graph.tof')
-    chk.functions = loader.describe([getattr(tof, k) for k in kin.KERNELS] + [tof._wavelength_Q_conversions, utils.as_float_type,
-                                                                              utils.elem_unit, utils.elem_dtype, utils.float_dtype, gt.elastic])
+    chk.functions = loader.describe([getattr(tof, k) for k in kin.KERNELS]) + loader.describe_exprs(
+        ['tof._wavelength_Q_conversions', 'utils.as_float_type', 'utils.elem_unit', 'utils.elem_dtype', 'utils.float_dtype', 'gt.elastic'], {**globals(), **locals()})
     jobs = []
     for kname, (kinds, *_rest) in kin.KERNELS.items():
         n = len(kinds)
